@@ -119,7 +119,7 @@ def configs(tier):
         cs = [
             dict(name="ctl-xfer-all", mps=64, gap=1, pace=1, gran="xfer", reqs=ALL, depth=NOLIMIT),
             dict(name="ctl-xfer-all-b", mps=8, gap=4, pace=2, gran="xfer", reqs=ALL, depth=NOLIMIT),
-            dict(name="ctl-txn-enum", mps=64, gap=1, pace=1, gran="txn", reqs=ENUM, abandon=1, lost=1, early=1, sof=1, depth=NOLIMIT),
+            dict(name="ctl-txn-enum", mps=64, gap=1, pace=1, gran="txn", reqs=[r for r in ENUM if r not in ("GDD8", "GDS1", "GDS3", "GDS2S")], abandon=1, lost=1, early=1, sof=1, depth=NOLIMIT),
             dict(name="ctl-txn-class", mps=8, gap=3, pace=2, gran="txn", reqs=CLASS + ["SA33", "SC1", "GDC255"], abandon=1, lost=1, early=1, sof=1, depth=NOLIMIT),
             dict(name="ctl-txn-mix", mps=2, gap=6, pace=1, gran="txn", reqs=["GDD64", "GDC9", "GDS0", "GDSEE", "SA35", "SC1", "SC0", "SLC", "SBRK", "GLC", "VND0", "VOUT"], abandon=1, lost=1, early=1, depth=NOLIMIT),
             dict(name="all-xfer-data", mps=4, gap=1, pace=1, gran="xfer", reqs=["GDD18", "GDC255", "SA33", "SC1", "SLC", "SCLS", "GLC", "SEC", "C20IN", "VND0", "VIN", "VOUT"], depth=5,
